@@ -293,6 +293,42 @@ theorem C17_translation_sound_complete_partial (cfg : Cfg) (gr : Grammar) (b : B
 example : SimpleSetting { uf := 256, engine := false } exampleGrammar (.nt "a" []) [.atom "x", .atom "z"] :=
   ⟨rfl, by decide, by decide, by decide, by decide⟩
 
+/-- the program the reference evaluation runs IS the model's expansion of the rules: for every
+    term that reads as a rule `r`, `expandDCG` (with the variable supply starting after the rule's
+    own variables) returns exactly `Head :- Body` of the clause `r.clause` that `programOf` uses -/
+theorem C17_program_is_expansion (rt : Term) (r : Rule) (h : Rule.ofTerm rt = .ok r) :
+    expandDCG rt r.nv = .ok (Term.a2 ":-" r.clause.head r.clause.body, r.clause.nv) := by
+  rw [expand_spec, specRule, h]
+  simp only [Rule.clause, Rule.tr]
+  cases r.pushback <;> simp [Term.a2]
+
+/-- the fragment theorem stated for the MODEL's translation: for a body term `q` that reads as a
+    body `b` of the fragment, `dcgBody q l S` succeeds, and the reference SLD evaluation of ITS
+    result in the translated grammar has exactly the remainders of ⟦b⟧, in order (same fuel) -/
+theorem C17_model_translation_sound_complete_partial (cfg : Cfg) (gr : Grammar) (q : Term) (b : Body)
+    (l : List Term) (hq : Body.ofTerm q = .ok b) (h : SimpleSetting cfg gr b l) (n : Nat) :
+    ∃ g n', dcgBody q (Term.list l) (.var 0) 1 = .ok (g, n') ∧
+      match solve cfg.uf (programOf gr) n g { σ := [], next := n' },
+            den cfg gr n true b { σ := [], next := n' } (Term.list l) with
+      | .ok A, .ok D =>
+        A.cut = D.cut ∧ A.answers.map (fun st => walk st.σ (.var 0)) = D.answers.map (·.2)
+      | .error _, .error _ => True
+      | _, _ => False := by
+  refine ⟨(b.tr (Term.list l) (.var 0) 1).1, 1 + b.nhid, ?_, ?_⟩
+  · rw [body_spec, specBody, hq]
+    simp only [Except.ok.injEq]
+    exact Prod.ext rfl (tr_next b _ _ 1)
+  · have := C17_translation_sound_complete_partial cfg gr b l h n
+    simp only at this
+    cases hx : solve cfg.uf (programOf gr) n (b.tr (Term.list l) (.var 0) 1).1 { σ := [], next := 1 + b.nhid } <;>
+      cases hy : den cfg gr n true b { σ := [], next := 1 + b.nhid } (Term.list l) <;>
+      simp_all
+
+/-- altIterator splits a clause body into exactly the ISO top-level disjuncts (an if-then-else is
+    one disjunct) -/
+theorem C17_alternatives (t : Term) : altItems t = disjuncts t := by
+  fun_induction disjuncts t <;> simp_all [altItems, DCG.isThen]
+
 /-! the D16 witness, evaluated by the kernel on both sides of the theorem: with
     `a --> [x], !, [y].  a --> [x], [z].  …` the input [x,z] is NOT recognised (the cut commits
     to the first rule), [x,y] is, leaving [] -/
